@@ -15,9 +15,15 @@
                 anState  ones digit 0 no annotations, 1 no reservation entry, 2 unreadable entry, 3 JSON object
                          (tens digit: which spelling of "absent" / "unreadable" the harness writes)
                 anPolicy 0 unset 1 Default 2 ReservedCPUsOnly 3 another string
-                resMicro resources.cpu in micro-CPU; cpusStyle 0..4 legal spellings, 5 not a cpu list *)
+                resMicro resources.cpu in micro-CPU; cpusStyle 0..4 legal spellings, 5 not a cpu list
+     7 rounds : whole suppressBECPU rounds on ONE plugin instance (node as in kind 6)
+                cap hasAlloc alloc anState anPolicy hasRes resMicro cpusStyle K cpus*K
+                thr hasMin minPct static sysKind S sys*S   K0 old*K0 initQuota
+                NP procs  P (lab kubeBE hasMetric k cpus*k)*P  H (qos base hasMetric)*H
+                N ops: 1 mode fail nodeU use*P use*H  (mode 0 cpuset 1 cfsQuota 2 disabled) | 2 value
+                obs after every step: [len root.. len pod.. len ctr.. quota] *)
 From Coq Require Import List ZArith Bool.
-From Verif Require Import Lib.Wire Gen.Gen_consts C10.Model C10.Spec.
+From Verif Require Import Lib.Wire Gen.Gen_consts C10.Model C10.Spec C10.Round.
 Import ListNotations.
 Open Scope Z_scope.
 
@@ -100,6 +106,63 @@ Definition dec_qop (l : list Z) : qop * list Z :=
 Definition dec_hist (l : list Z) : Z * Z * list qop :=
   (nth0 0 l, nth0 1 l, fst (decode_seq dec_qop (skipn 2 l))).
 
+(* ---------- kind 7 *)
+Definition dec_rpod (l : list Z) : rpod * list Z :=
+  let '(cs, r) := take_list (skipn 3 l) in
+  (mkRpod (nth0 0 l mod 10) (zb (nth0 1 l)) (zb (nth0 2 l)) cs, r).   (* tens digit: spelling of the list *)
+Definition dec_rhost (l : list Z) : rhost * list Z :=
+  (mkRhost (nth0 0 l) (nth0 1 l) (zb (nth0 2 l)), skipn 3 l).
+Definition dec_rop (np nh : nat) (l : list Z) : rop * list Z :=
+  if nth0 0 l =? 1 then
+    let r := skipn 4 l in
+    (RRound (nth0 1 l) (zb (nth0 2 l)) (nth0 3 l) (firstn np r) (firstn nh (skipn np r)), skipn (np + nh) r)
+  else (RReset (nth0 1 l), skipn 2 l).
+
+Definition dec_rounds_raw (l : list Z) : rcfg * (list Z * Z) * list rop :=
+  let capm := nth0 0 l in
+  let alloc := if zb (nth0 1 l) then Some (nth0 2 l) else None in
+  let st := nth0 3 l mod 10 in
+  let pol := nth0 4 l in
+  let res := if zb (nth0 5 l) then Some (nth0 6 l) else None in
+  let ok := negb (nth0 7 l mod 10 =? 5) in
+  let '(cpus, r) := take_list (skipn 8 l) in
+  let thr := nth0 0 r in
+  let mn := if zb (nth0 1 r) then Some (nth0 2 r) else None in
+  let static := zb (nth0 3 r) in
+  let sysk := nth0 4 r mod 10 in
+  let '(sys, r1) := take_list (skipn 5 r) in
+  let '(old, r2) := take_list r1 in
+  let q0 := hdZ r2 in
+  let '(procs, r3) := decode_seq dec_proc (tl r2) in
+  let '(pods, r4) := decode_seq dec_rpod r3 in
+  let '(hosts, r5) := decode_seq dec_rhost r4 in
+  let '(ops, _) := decode_seq (dec_rop (length pods) (length hosts)) r5 in
+  (mkRC capm alloc (mkAnno st pol res ok cpus) thr mn static
+        (if (sysk =? 1) || (sysk =? 2) then sys else []) procs pods hosts,
+   (old, q0), ops).
+(* all three cpuset files start with the same set, the plugin instance is fresh *)
+Definition dec_rounds (l : list Z) : rcfg * rstate * list rop :=
+  let '(c, (old, q0), ops) := dec_rounds_raw l in
+  (c, mkRS (to_set old) (to_set old) (to_set old) q0 false, ops).
+
+Definition enc_robs (o : robs) : list Z :=
+  let '(a, b, c, q) := o in encode_list a ++ encode_list b ++ encode_list c ++ [q].
+Fixpoint dec_robs (n : nat) (o : list Z) : option (list robs) :=
+  match n with
+  | O => match o with [] => Some [] | _ => None end
+  | S k =>
+      let '(a, r1) := take_list o in
+      let '(b, r2) := take_list r1 in
+      let '(c, r3) := take_list r2 in
+      match r3 with
+      | q :: r4 =>
+          if (lenZ a =? hdZ o) && (lenZ b =? hdZ r1) && (lenZ c =? hdZ r2)
+          then match dec_robs k r4 with Some t => Some ((a, b, c, q) :: t) | None => None end
+          else None
+      | [] => None
+      end
+  end.
+
 Definition run_case (inp : list Z) : list Z :=
   match inp with
   | 1 :: l =>
@@ -112,6 +175,7 @@ Definition run_case (inp : list Z) : list Z :=
   | 5 :: l => let '(cap, init, ops) := dec_hist l in hist cap (init, false) ops
   | 6 :: l =>
       let '(i, (pk, pi, pd)) := dec_budget6 l in [budget i; budget (perturb pk pi pd i)]
+  | 7 :: l => let '(c, st, ops) := dec_rounds l in flat_map enc_robs (rhist c st ops)
   | _ => [-1]
   end.
 
@@ -138,6 +202,12 @@ Definition prop_case (inp obs : list Z) : Z :=
       end
   | 5 :: l => let '(cap, init, ops) := dec_hist l in hist_code cap init ops obs
   | 6 :: l => let '(i, (pk, pi, pd)) := dec_budget6 l in budget_code pk pi pd i obs
+  | 7 :: l =>
+      let '(c, st, ops) := dec_rounds l in
+      match dec_robs (length ops) obs with
+      | Some os => rhist_code c (obs_of st) ops os
+      | None => 769
+      end
   | _ => 9
   end.
 
@@ -159,6 +229,14 @@ Definition nontrivial_case (inp : list Z) : bool :=
   match inp with
   | 1 :: l => let '(i, _) := dec_budget l in nontrivial_budget i
   | 6 :: l => let '(i, _) := dec_budget6 l in nontrivial_budget i
+  | 7 :: l =>
+      (* a cpuset-policy round that has pods and metrics, and a round of another kind, on a node
+         with at least one protected cpu *)
+      let '(c, _, ops) := dec_rounds l in
+      match rc_pods c with [] => false | _ => true end
+      && existsb (fun op => match op with RRound m f _ _ _ => (m =? 0) && negb f | _ => false end) ops
+      && existsb (fun op => match op with RRound m _ _ _ _ => negb (m =? 0) | _ => false end) ops
+      && existsb (protected (round_ainput c 0 [])) (map cpu (rc_procs c))
   | 2 :: l =>
       let '(n, ps) := dec_pick l in
       (2 <=? n) && (n <=? lenZ ps) && (2 <=? lenZ (buckets_of ps))
@@ -185,6 +263,7 @@ Definition wf_case (inp : list Z) : bool :=
   match inp with
   | 1 :: l => let '(i, pert) := dec_budget l in wf_budget i pert
   | 6 :: l => let '(i, pert) := dec_budget6 l in wf_budget i pert
+  | 7 :: l => let '(c, _, _) := dec_rounds l in rcfg_wfb c
   | 2 :: l => let '(_, ps) := dec_pick l in nodupb (map cpu ps)
   | 3 :: l => nodupb (map cpu (a_procs (dec_adjust l)))
   | 4 :: _ => true
